@@ -107,6 +107,7 @@ func (s *Scheduler) Schedule(g *ExecutionGraph) error {
 
 // Cancel cancels executing tasks
 func (s *Scheduler) Cancel() {
+	verifCancel(s)
 	atomic.StoreInt32(&s.cancelled, 1)
 	s.taskRunner.Cancel()
 }
